@@ -343,8 +343,8 @@ pub fn dump_mono<'tcx>(tcx: TyCtxt<'tcx>) -> J {
                     );
                     if let ty::FnDef(cd, cargs) = fty.kind() {
                         let cp = def_str(tcx, *cd);
-                        if cp == "cast_unchecked" || cp.ends_with("::cast_unchecked") || cp.ends_with("TypeId::of") {
-                            let tys: Vec<Ty<'tcx>> = cargs.types().collect();
+                        let tys: Vec<Ty<'tcx>> = cargs.types().collect();
+                        if is_identity_cast(tcx, *cd, tys.len()) || cp.ends_with("TypeId::of") {
                             let mut co = J::obj();
                             co.put("path", J::s(cp));
                             co.put("gargs", gargs(cargs));
